@@ -218,6 +218,10 @@ class Check:
         any_input = any(h for _, h in self.viol)
         for payload, has_input in self.viol:
             path = core.write_replay(self.pid, payload)
+            if any_input and not has_input:
+                # a concrete failing input exists; further model-only disagreements are listed, not reported as separate violations
+                lines.append("NOTE property=%s additional model/implementation disagreement: %s" % (self.pid, path))
+                continue
             lines.append("VIOLATION property=%s replay=%s%s" % (self.pid, path, "" if has_input else " no-failing-input-found"))
         if self.broken and not any_input:
             payload = {"property": self.pid, "kind": "broken-obligation", "broken": self.broken, "seed": self.seed,
